@@ -94,5 +94,5 @@ ApiInv ==
   /\ StartedIffServing /\ NothingAfterServe /\ UnregisteredIsStopped /\ CloseReturnsLate
 
 AView == <<srv, calls, pm, [p \in Ps |-> [d \in Dirs |-> [fsm[p][d] EXCEPT !.sess = IF @ = 0 THEN 0 ELSE 1]]],
-           conn, dial, [gh EXCEPT !.nsess = [p \in Ps |-> 0], !.ncb = [p \in Ps |-> [n \in CbNames |-> 0]]], ncalls>>
+           conn, dial, [gh EXCEPT !.nsess = [p \in Ps |-> 0], !.ncb = [p \in Ps |-> [n \in CbNames \cup PmGateNames |-> 0]]], ncalls>>
 =============================================================================
